@@ -162,6 +162,21 @@ def step (st : State) (w : List String) : State × String :=
       let v := match answerWildcard covers z sa ns with | .ok => "ok" | .fail _ => "fail"
       some (v ++ " kept=" ++ showNats kept)
     (st, r.getD "bad-op")
+  | "nodata" :: "nsec" :: _ =>
+    let r : Option String := do
+      let isDS ← parseBool (field w "ds")
+      let ns ← (listOf (field w "N")).mapM fun t =>
+        match t.splitOn "/" with
+        | [o, bits] =>
+          -- for a DS question the DS bit IS the query type
+          some (parseName o, (bits.contains 'q' || bits.contains 'c' || (isDS && bits.contains 'd')), bits.contains 's', bits.contains 'n')
+        | _ => none
+      match verifyNodataExact isDS ns (parseName (field w "q")) with
+      | some .ok => some "ok"
+      | some .nsMissing => some "fail:typeexists"
+      | some .badDelegation => some "fail:baddelegation"
+      | _ => some "noexact"
+    (st, r.getD "bad-op")
   | "nsec3" :: "nodata" :: _ =>
     let r : Option String := do
       let t ← (field w "t").toNat?
